@@ -2,15 +2,16 @@ INIT Init
 NEXT Next
 CONSTANTS
   Values = {1, 2, 3}
-  Counts = {1, 2, 5}
+  Counts = {1, 5}
   Xs = {1, 4}
   Kinds = {"C", "V"}
   Caps = {1, 2}
   DefaultCap = 2
   FinCaps <- MCFinCapsSmall
   MaxOps = 3
+  WordBits = 0
   Bug = "none"
   MaxLog2 = 6
 VIEW View
-INVARIANTS Conservation FinishBound FinishHeaviest CapacityRespected TopNonEmpty WhaleIsTotal TypeOK AtomicMatches
+INVARIANTS Conservation FinishBound FinishHeaviest CapacityRespected TopNonEmpty WhaleIsTotal TypeOK NeverStuck AtomicMatches
 CHECK_DEADLOCK FALSE
